@@ -13,9 +13,9 @@ def to_ir(self: Expression) -> ir.Expression:
 
 @to_ir.register(Integer)
 def to_ir_integer(self: Integer):
-    # This is sensible as long as we only support floating point values and don't support division. If either of those
-    # ceases to be true, this will need to be updated.
-    return ir.IntegerLiteral(self.value)
+    # Every tensor value is a double. An integer literal in the kernel would make sums and products of literals int32
+    # arithmetic, which overflows, and a literal that does not fit in int32 is truncated by the LLVM backend.
+    return ir.FloatLiteral(float(self.value))
 
 
 @to_ir.register(Float)
